@@ -178,7 +178,21 @@ def rav(x):
 # ---------------------------------------------------------------------------
 # KNeighbors
 # ---------------------------------------------------------------------------
-def knn_case(vd, de, dn, dv, qe, qn, combos, kind, extra=False, rnd=None, reuse=False, prefit=None):
+def clobber_arrays(how, arrays):
+    """the caller reuses its own arrays in place after fit"""
+    for a in arrays:
+        if how == "zeros":
+            a[...] = 0.0
+        elif how == "shift":
+            a -= a.mean()
+            a += 1.0
+        elif how == "permute":
+            a[...] = np.roll(a.ravel(), 1).reshape(a.shape)
+        else:
+            raise ValueError(how)
+
+
+def knn_case(vd, de, dn, dv, qe, qn, combos, kind, extra=False, rnd=None, reuse=False, prefit=None, clobber=None):
     """one cloud, one query set, several (reduction, k).  With [rnd]: the arguments are passed in random
     containers / dtypes / layouts.  With [reuse]: one instance is first fitted on other data and used, then
     refitted, and predict is called twice - must equal a fresh instance (the model)."""
@@ -203,7 +217,14 @@ def knn_case(vd, de, dn, dv, qe, qn, combos, kind, extra=False, rnd=None, reuse=
                 oe = np.linspace(-50.0, 50.0, np.size(de) + 3)
                 g.fit((oe, oe[::-1] * 0.5), np.arange(oe.size) * 1000.0)
                 g.predict(([0.0, 1.0], [0.0, 1.0]))
-            g.fit(coords, pdv)
+            if clobber is not None:
+                # fit on the caller's own float64 C-contiguous arrays (no conversion copy on the way in), which the
+                # caller then overwrites in place: predictions must still be those of the data that was fitted
+                mine = [np.array(x, dtype=float, order="C") for x in (de, dn, dv)]
+                g.fit(tuple(mine[:2]) + tuple(coords[2:]), mine[2])
+                clobber_arrays(clobber, mine)
+            else:
+                g.fit(coords, pdv)
             out = np.asarray(g.predict(qcoords))
             shape_ok = shape_ok and out.shape == np.shape(qe)
             if reuse or prefit is not None:
@@ -222,11 +243,14 @@ def knn_case(vd, de, dn, dv, qe, qn, combos, kind, extra=False, rnd=None, reuse=
              "for red, k in %r:\n"
              "    g = verde.KNeighbors(k=k, reduction={'RMean': np.mean, 'RMedian': np.median, 'RMin': np.min, 'RMax': np.max}[red])\n"
              "    if A is not None: g.fit((np.array(A[0]), np.array(A[1])), np.array(A[2]))\n"
-             "    print(red, k, g.fit(c, d).predict(q))"
+             "    g.fit(c, d)\n"
+             "    if %r is not None: from harness.c15 import clobber_arrays; clobber_arrays(%r, [c[0], c[1], d])\n"
+             "    print(red, k, g.predict(q))"
              % (fl(de), tf[0], fl(dn), tf[1], fl(dv), tf[2], fl(qe), tp[0], fl(qn), tp[1],
-                None if prefit is None else [fl(x) for x in prefit], [list(c) for c in combos]))
+                None if prefit is None else [fl(x) for x in prefit], [list(c) for c in combos], clobber, clobber))
     return Case({"fn": "KNeighbors", "combos": [list(c) for c in combos], "easting": fl(de), "northing": fl(dn), "data": fl(dv),
                  "query_easting": fl(qe), "query_northing": fl(qn), "extra_coords": extra, "presentation": tags, "reuse_instance": reuse,
+                 "caller_overwrites_its_arrays_after_fit": clobber,
                  "fitted_before_on": None if prefit is None else {"easting": fl(prefit[0]), "northing": fl(prefit[1]), "data": fl(prefit[2])}},
                 {"predictions": obs, "shape_ok_and_repeatable": shape_ok}, term, repro, kind)
 
@@ -323,6 +347,26 @@ def gen_refit(vd, rnd, tier, cases):
             for r in rs:
                 cases.append(knn_case(vd, be_, bn_, bv_, qe, qn, [(r, k) for k in (1, 2, 3, 5)], "knn-refit-%s" % name,
                                       rnd=(rnd if c % 3 == 2 else None), prefit=(ae, an, av)))
+
+
+def gen_clobber(vd, rnd, tier, cases):
+    """the caller overwrites its data and coordinate arrays in place after fit (zeros, shifted, permuted):
+    the estimator must have kept its own copies - predictions are those of the data that was fitted"""
+    nclouds = 8 if tier == "quick" else 32
+    reds = list(RED)
+    for c in range(nclouds):
+        mode = ["jitter", "uniform", "int", "far"][c % 4]
+        n = rnd.choice([6, 8, 9, 10, 12])
+        de, dn = cloud(rnd, n, mode)
+        dv = np.array([rnd.uniform(-100, 100) for _ in range(n)])
+        qe, qn = queries(rnd, de, dn, rnd.randint(3, 8), mode)
+        if mode == "int":
+            qe, qn = np.round(qe), np.round(qn)
+        if c % 2:                       # 2-D C-contiguous data (a grid being overwritten)
+            de, dn, dv = reshape2(rnd, de, dn, dv)
+        for how in ("zeros", "shift", "permute"):
+            for r in (reds[(c + i) % 4] for i in range(2)):
+                cases.append(knn_case(vd, de, dn, dv, qe, qn, [(r, k) for k in (1, 2, 3, 5)], "knn-clobber-%s" % how, clobber=how))
 
 
 # ---------------------------------------------------------------------------
@@ -601,6 +645,7 @@ def generate(tier, seed):
     cases = []
     gen_knn(vd, rnd, tier, cases)
     gen_refit(vd, rnd, tier, cases)
+    gen_clobber(vd, rnd, tier, cases)
     gen_meddist(vd, rnd, tier, cases)
     gen_mask(vd, rnd, tier, cases)
     gen_grid(vd, rnd, tier, cases)
